@@ -50,6 +50,23 @@ def gen(tier, rng):
                             if frm == to:
                                 cases.append(map_case("map_inplace", mspt, mdpt, w, h, data, mapper, direction, dict(base, kind="alpha", nc=nc),
                                                       dst_lay=lay[1]))
+                            # flat / structured rows (a shortcut keyed on the values must still treat alpha as alpha): every
+                            # component of the row equal; grey pixels with another alpha; runs of zero / maximum pixels
+                            v, a2 = rng.randint(1, N - 1), rng.randint(1, N - 1)
+                            flat = [v] * (w * nc)
+                            grey = []
+                            for _ in range(w):
+                                gv = rng.randint(0, N)
+                                grey += [gv] * (nc - 1) + [a2] if nc in (2, 4) else [gv] * nc
+                            runs = []
+                            for _ in range(w):
+                                runs += rng.choice([[0] * nc, [N] * nc, [rng.randint(0, N)] * nc])
+                            data2 = flat + grey + runs
+                            cases.append(map_case("map", mspt, mdpt, w, h, data2, mapper, direction, dict(base, kind="alpha", nc=nc),
+                                                  src_lay=lay[0], dst_lay=lay[1]))
+                            if frm == to:
+                                cases.append(map_case("map_inplace", mspt, mdpt, w, h, data2, mapper, direction, dict(base, kind="alpha", nc=nc),
+                                                      dst_lay=lay[1]))
                     if frm == to:
                         cases.append(map_case("map_inplace", spt, dpt, len(sample), 1, sample, mapper, direction, dict(base, kind="alpha", nc=1)))
     # rejected combinations
